@@ -112,7 +112,7 @@ CHECKS = {
     technique="property-based testing over generated histories (proptest): sequences of build() calls, rebuilds and edit+reload() rounds vs from-scratch builds",
     text="Generated histories (partition of the roots into successive builds, rebuild of a known root, up to three rounds of source edits each followed by reload of the changed specifiers, named by their final specifier or by the head of a recorded redirect chain) checked against a from-scratch build of the same / the edited sources: equal entries, serialised modules and redirects for everything the fresh graph contains, untouched entries byte-identical, no change when a known root is built again; every other history shares one capturing analyser (parsed-source cache) between its builds and reloads. Exploration only.",
     design_ref="DESIGN.md §4 C19",
-    note="Trusted: proptest and the harness loader. Worlds carry no source-map URLs and `type` attributes only in a structural sub-domain (JSON targets every importer requests as json: the attribute class of a target must be stable over time); context-sensitive acceptance divergences are known findings.",
+    note="Trusted: proptest and the harness loader. Worlds carry no source-map URLs and `type` attributes only in two structural sub-domains (JSON targets every importer requests as json; code modules of a fixed class every importer requests as text / bytes assets and that may also be roots: the attribute class of a target must be stable over time); context-sensitive acceptance divergences are known findings.",
   ),
   "C16": dict(
     technique="property-based testing (proptest) with a multi-module TypeScript program generator: validity predicate over every symbol table, reference fixpoint of the resolved export set from an independent AST walk, termination and answer shape of go-to-definition under a watchdog; plus the symbols / graph spec corpus",
